@@ -34,6 +34,9 @@ CACHE = os.environ.get('VERIF_CACHE', '/var/tmp/verif-cache')
 _locks = []
 
 
+_held = set()
+
+
 def cached_ws(name, scratch):
     """a scratch copy of /repo at a *stable* path (so that cargo's build cache under CACHE is reused between runs),
     refreshed from /repo's working tree on every run (rsync --checksum --delete) and guarded by a lock file that is
@@ -44,9 +47,11 @@ def cached_ws(name, scratch):
         tdir = scratch
     else:
         os.makedirs(CACHE, exist_ok=True)
-        lock = open(os.path.join(CACHE, name + '.lock'), 'w')
-        fcntl.flock(lock, fcntl.LOCK_EX)
-        _locks.append(lock)
+        if name not in _held:   # re-entrant within one process (a second flock on a new descriptor would wait for ourselves)
+            lock = open(os.path.join(CACHE, name + '.lock'), 'w')
+            fcntl.flock(lock, fcntl.LOCK_EX)
+            _locks.append(lock)
+            _held.add(name)
         ws = os.path.join(CACHE, name)
         tdir = CACHE
     os.makedirs(ws, exist_ok=True)
